@@ -403,6 +403,14 @@ func witnessString(ws []WDraw) string {
 	return s
 }
 
+// drawString renders one draw the way witnessString does.
+func drawString(d WDraw) string {
+	if d.Kind == "string" {
+		return fmt.Sprintf("%q", hexToString(d.Value))
+	}
+	return d.Value
+}
+
 func hexToString(h string) string {
 	out := make([]byte, len(h)/2)
 	for i := range out {
